@@ -20,3 +20,7 @@ def check(ctx: Ctx) -> None:
     from . import naming as _N
     _N.r_id_discipline(ctx, "R02.9")
     S.r_published_before_first_step(ctx, "R02.10")
+    # a task that is forgotten while it is still inside a callback ends with a KeyError before its slot is released: gather_and_close
+    # forgets a registry only when every task it can hold was awaited
+    from . import close as CL
+    CL.r_forget_only_gathered(ctx, "R02.11")
